@@ -100,8 +100,10 @@ CLAIMS = {
              'are declared and chain-resolved, the queries write no state (except caches that '
              'add_parameter resets), and dimensionality / unit_to_physical / '
              'physical_to_dictionary agree on free, fixed and link entries with one forward '
-             'coordinate counter.  The numerical clauses (inverse CDF shape) are not decided.',
-        ref='DESIGN.md section 4 C15 and 10, rules T1 T1b T7 R1 L1p K1 A1 A1c F1p',
+             'coordinate counter; a declared key / distribution is never tested for truthiness '
+             '(0, 0.0, False are legal fixed values) and is rebound only under a type or is-None '
+             'test of itself.  The numerical clauses (inverse CDF shape) are not decided.',
+        ref='DESIGN.md section 4 C15 and 10, rules T1 T1b T7 R1 L1p K1 A1 A1c F1p D1',
         note=TRUST),
 }
 
@@ -115,9 +117,10 @@ CLAIMS.update({
              'shifts forward first; composite contains() masks start from the outer bound and '
              'are only narrowed; the mixture pairs cube/ellipsoid with the right columns in '
              'transform, contains and sample; construction points stay recorded with the '
-             'ellipsoid built from them through splits; caches are reset when members change.  '
-             'Leaf floating-point geometry is assumed.',
-        ref='DESIGN.md section 4 C07, rules M1 M2 M3 A4 M6 L1 L6 T9', note=TRUST),
+             'ellipsoid built from them through splits; caches are reset when members change; at '
+             'the leaf, the ellipsoid sampler draws direction x u^(1/n) through the matrix whose '
+             'inverse contains() applies.  Leaf floating-point geometry is assumed.',
+        ref='DESIGN.md section 4 C07 and 10.9, rules M1 M2 M3 A4 M6 L1 L6 T9 V2', note=TRUST),
     'C08': dict(
         technique='sibling-agreement (serial vs pool branch) and def-use dependency rules',
         text='WEAK claim, structural necessary conditions only: the pool branch of '
@@ -126,9 +129,11 @@ CLAIMS.update({
              'on multiplicity over all members and the allocation on member volumes, paired in '
              'order; counters are covered by update(); what sample() hands out passed the tests '
              'contains() applies (cube, any-of neural bounds, frames); a cached volume is '
-             'invalidated by every counter update.  Uniformity and volume calibration as '
+             'invalidated by every counter update; as exact algebra, union / nautilus volumes are '
+             'the proposal region times (n_sample - n_reject)/n_sample and the ellipsoid volume is '
+             'log|det M| + (n/2) log pi - lgamma(n/2+1) for the matrix M that contains() inverts.  Uniformity and volume calibration as '
              'distributional facts are NOT decided by static analysis.',
-        ref='DESIGN.md section 4 C08 and 10.9, rules A3 T8 Q1 Q2 P4 M1 K2', note=TRUST),
+        ref='DESIGN.md section 4 C08 and 10.9, rules A3 T8 Q1 Q2 P4 M1 K2 V2', note=TRUST),
     'C09': dict(
         technique='writer/reader/updater table extraction and comparison; definite-assignment '
                   'analysis of constructors against the observation interface read set',
@@ -152,8 +157,9 @@ CLAIMS.update({
              'loop, idle iterations are pure; sample_shell returns exactly n_batch fresh rows; '
              'the success predicate is one conjunction over explored / per-shell minimum / n_eff '
              'and is the returned value; every evaluated point comes from a unit-cube restricted '
-             'bound through row selections and a shift that is closed on [0,1).',
-        ref='DESIGN.md section 4 C10, rules F6 N1 T5 T8 M1 M3 M6', note=TRUST),
+             'bound through row selections and a shift that is closed on [0,1); across resumes the '
+             'budget is compared with a counter that every checkpoint update rewrites.',
+        ref='DESIGN.md section 4 C10 and 10.9, rules F6 N1 T5 T8 M1 M3 M6 P4', note=TRUST),
     'C11': dict(
         technique='effect (write/draw) summaries closed over the call graph; control-dependence '
                   'analysis of flag tests; rng provenance; nondeterminism lints with fixtures',
@@ -163,8 +169,12 @@ CLAIMS.update({
              'outside print / checkpoint / ordered-map sinks, which are themselves pure; every '
              'rng-taking constructor, reader and reset receives the caller\'s generator; no '
              'unseeded generator, legacy global RNG, clock, hash/set order; fitted estimators '
-             'are seeded; pool maps are ordered.',
-        ref='DESIGN.md section 4 C11, rules F1-F5', note=TRUST +
+             'are seeded; pool maps are ordered; the prior only ever receives a fresh copy; on the '
+             'prior-transform path no branch on the shape / scalar-ness of the points selects the '
+             'arithmetic (scalar and vectorised evaluation see the same coordinates); no parameter '
+             'that may be its mutable default object is modified in place, no unlisted global '
+             'write, no class-level mutable attribute.',
+        ref='DESIGN.md section 4 C11 and 10.9, rules F1-F5 F7 F8 G1', note=TRUST +
         ' NumPy / SciPy / sklearn are deterministic given their seeds.'),
     'C12': dict(
         technique='control-dependence phase guards, who-may-write tables, extend-prefix lockstep '
